@@ -74,6 +74,7 @@ CONFIGS = {
                  dict(MULTI, Jobs=[1, 2], QKinds=['fifo', 'prio'], QOf={1: 1, 2: 2}, NoBind=True), 'thorough'),
     'bindctx': ({'ctl': [op(B), op(A, job=1), op(B), op(WU)], 'x': [op(CC)]},
                 dict(MULTI, Jobs=[1], QKinds=['fifo', 'fifo'], QOf={1: 1}, NoBind=True, WithCtx=True), 'thorough'),
+    'expiry3': ({'c1': [op(A, job=1), op(A, job=2), op(WU), op(A, job=3), op(WU)]}, {'Jobs': [1, 2, 3], 'Conc0': 2, 'Expiry': True}, 'heavy'),
     'stopwuf': ({'c1': [op(A, job=1), op(A, job=2)], 'ctl': [op(S)], 'x': [op(WU), op(WU)]}, {}, 'thorough'),
     'ratio': ({'c1': [op(A, job=1), op(A, job=2), op(A, job=3), op(WU)]}, {'Jobs': [1, 2, 3], 'Nodes': [1, 2, 3], 'PGSeq': ['pg1', 'pg2', 'pg3'], 'Conc0': 3, 'Ratio': 100}, 'thorough'),
 }
@@ -86,7 +87,11 @@ SAFETY = ['TypeOK', 'NoViolation', 'C01_AtMostOnce', 'C01_NoRejected', 'C02_Boun
           'NodeOwnership', 'OneLoop', 'C08_CloseOnce', 'C08_Closes', 'C07_Metrics', 'C11_AckAfter', 'C11_AckIssued', 'C11_NoLoss', 'C11_Recovery', 'C03_NoStall', 'C06_Returns', 'C05_Returns']
 
 
-def write_model(name, scratch, live=False, extra_invs=()):
+OBSERVABLE = ['NoViolation', 'C01_AtMostOnce', 'C01_NoRejected', 'C02_Bound', 'C09_PauseBound', 'C18_PoolBound', 'C18_IdleAtRest', 'C08_CloseOnce', 'C08_Closes',
+              'C11_AckAfter', 'C11_AckIssued', 'C11_NoLoss', 'C11_Recovery', 'C03_NoStall', 'C06_Returns', 'C05_Returns']      # (what a client can see)
+
+
+def write_model(name, scratch, live=False, extra_invs=(), gatelike=False, invs=None):
     clients, over, _ = CONFIGS[name]
     k = dict(DEFAULTS)
     k.update(over)
@@ -142,7 +147,9 @@ CHECK_DEADLOCK FALSE
     if live:
         cfg += 'PROPERTY C03_Live\n'
     else:
-        cfg += 'INVARIANTS ' + ' '.join(SAFETY + list(k.get('Inv', [])) + list(extra_invs)) + '\nPROPERTY C16_Forward ' + ' '.join(k.get('Props', [])) + '\n'
+        cfg += 'INVARIANTS ' + ' '.join((invs if invs is not None else SAFETY) + list(k.get('Inv', [])) + list(extra_invs)) + '\nPROPERTY C16_Forward ' + ' '.join(k.get('Props', [])) + '\n'
+    if gatelike:
+        cfg += 'ACTION_CONSTRAINT GateLike\n'
     d = os.path.join(scratch, 'mc-' + name + ('-live' if live else ''))
     os.makedirs(d, exist_ok=True)
     open(os.path.join(d, mod + '.tla'), 'w').write(txt)
